@@ -382,6 +382,9 @@ def main():
             if MODE == "C05":
                 for k in ks[:200]:
                     cases.append((isa, arch, k, False, 1500))
+                # line numbers with gaps (blank lines inside the kernel, --lines 1-3,6-9): members are found by their number
+                for k in [k for k in ks if len(k) >= 2][100:260]:
+                    cases.append((isa, arch, [x for l in k for x in (l, "", "")][:-2], False, 7))
     if MODE in ("C03", "C04"):
         for isa, archs in MULTI_MODELS.items():
             for arch in archs:
